@@ -169,6 +169,19 @@ class FormatGroupbyInput(Contract):
                 if got != want:
                     bad = True
                     obs[f"groupby=lambda d: d.groupby({col!r}), groups={groups}"] = {"check received": got, "expected": want}
+            # repeated row labels (frames concatenated without ignore_index): a requested group holds ITS rows only
+            dup = pd.DataFrame({"v": [1, 2, 3, 4], "g": [1, 2, 1, 2], "b": [True] * 4}, index=[0, 0, 1, 1])
+            for groups, want in ((None, {1: [1, 3], 2: [2, 4]}), ([1], {1: [1, 3]}), ([1, 2], {1: [1, 3], 2: [2, 4]})):
+                seen = {}
+
+                def fn2(d, seen=seen):
+                    seen.update({k: list(v) for k, v in d.items()})
+                    return True
+
+                pa.DataFrameSchema({"v": pa.Column(int, pa.Check(fn2, groupby="g", groups=groups)), "g": pa.Column(int), "b": pa.Column(bool)}).validate(dup)
+                if seen != want:
+                    bad = True
+                    obs[f"index [0,0,1,1], groupby='g', groups={groups}"] = {"check received": seen, "expected": want}
             return bad, obs or "scalar group keys are handed to the check"
 
         return thunk
